@@ -215,6 +215,8 @@ class G:
             ex = ["num", r.choice(["0", "1", "2", "3"]), "i"]
             if r.random() < 0.5:
                 return ["binop", "Pow", self.num(d - 1), ex]
+            if r.random() < 0.25:
+                return ["call", ["direct", "power"], [self.num(d - 1), ex]]
             return ["call", ["lib", r.choice(["np", "numpy"]), "power"], [self.num(d - 1), ex]]
         if k == "abs":
             return ["call", ["direct", "abs"], [self.num(d - 1)]]
@@ -226,13 +228,20 @@ class G:
         if k == "fdiv":
             return ["binop", "FloorDiv", self.num(d - 1), self.posden(d - 1)]
         if k == "rem":
+            if r.random() < 0.25:
+                return ["call", ["direct", "remainder"], [self.num(d - 1), self.posden(d - 1)]]
             return ["call", ["lib", r.choice(["np", "numpy"]), "remainder"], [self.num(d - 1), self.posden(d - 1)]]
         if k == "ceil":
             return ["call", self.callee("ceil"), [self.num(d - 1)]]
         if not self.floaty:
             return self.leaf()
         self.used_float = True
-        k = r.choice(["div", "div", "unary", "unary", "const", "dom"])
+        k = r.choice(["div", "div", "unary", "unary", "const", "dom", "inf"])
+        if k == "inf":
+            inf = ["attr", r.choice(self.mods), "inf"]
+            if r.random() < 0.5:
+                return ["call", ["direct", "min"], [self.num(d - 1), inf]]
+            return ["call", ["direct", "max"], [self.num(d - 1), ["unary", "USub", inf]]]
         if k == "div":
             return ["binop", "Div", self.num(d - 1), self.posden(d - 1)]
         if k == "unary":
@@ -302,6 +311,7 @@ UNSUPPORTED = [
     ("ret_none", True), ("assign", True), ("chain_is", True),
     # keyword arguments (MathML has none), a body without return
     ("kw_key", True), ("kw_where", True), ("kw_default", True), ("nobody", True), ("assign_only", True),
+    ("exprstmt", True),
     # refused by the exporter although MathML could say it: allowed, not demanded
     ("mod", False), ("uadd", False), ("np.floor", False), ("np.exp", False), ("math_remainder", False),
     # functions just outside the exporter's table: refused, or exported with the same meaning (decided by the
@@ -593,6 +603,9 @@ def gen_model(rng, *, stratum: str):
         elif k == "nobody":
             f["body"] = []
             f["doc"] = True
+        elif k == "exprstmt":
+            f["body"] = [["other"], ["ret", f_expr_using_all(rng, g, f["params"])]]
+            f["stmt_src"] = render(g.num(1))  # an expression statement that is not a docstring
         elif k == "assign_only":
             f["body"] = [["other"]]
             f["assign_src"] = render(f_expr_using_all(rng, g, f["params"]))
@@ -637,6 +650,9 @@ def gen_model(rng, *, stratum: str):
             case["compartments"] = [["compartment", "1"], ["c2", rng.choice(["1", "2"])]]
         if opt != "two":  # a second compartment holds no species: its size is immaterial
             case["finding"] = "F-C08-14"
+        else:
+            case["options"] = rng.choice([{"model_name": "my model-1"}, {"units": True}, {"model_name": "m2", "units": True},
+                                          {"time_units": "second", "extent_units": "mole"}])
     return case
 
 
@@ -658,6 +674,8 @@ def fn_source(f) -> str:
     for st in f["body"]:
         if st[0] == "ret":
             lines.append("    return" if len(st) == 1 else f"    return {render(st[1])}")
+        elif "stmt_src" in f:
+            lines.append(f"    {f['stmt_src']}")
         else:
             lines.append(f"    tmp_ = {f.get('assign_src', '1.0')}")
     return "\n".join(lines) + "\n"
@@ -678,7 +696,7 @@ def all_fns(model):
 
 def module_source(model) -> str:
     head = ("import math\nimport numpy\nimport numpy as np\nimport scipy\n"
-            "from numpy import sqrt, ceil, log, log10, log2, sin, cos, tan\n\n\ndef helper(z):\n    return z\n\n\n")
+            "from numpy import sqrt, ceil, log, log10, log2, sin, cos, tan, power, remainder\n\n\ndef helper(z):\n    return z\n\n\n")
     seen, parts = set(), []
     for f in all_fns(model):
         if f["fname"] not in seen:  # a function shared by several components is defined once
@@ -917,9 +935,16 @@ def real_worker(job):
             if case.get("compartments"):
                 from mxlpy.sbml._data import Compartment
 
+                import libsbml
+
+                from mxlpy.sbml._data import AtomicUnit
+
+                opts = dict(case.get("options") or {})
+                if opts.pop("units", False):
+                    opts["units"] = {"mmol": AtomicUnit(kind=libsbml.UNIT_KIND_MOLE, exponent=1, scale=-3, multiplier=1)}
                 sbml.write(m, xml, compartments={
                     cid: Compartment(name=cid, dimensions=3, size=_fl(size), units="litre", is_constant=True)
-                    for cid, size in case["compartments"]})
+                    for cid, size in case["compartments"]}, **opts)
             else:
                 sbml.write(m, xml)
         except Exception as e:  # noqa: BLE001
@@ -1036,7 +1061,7 @@ def judge_case(ctx, case, R, M):
     }
     kinds["all"] = kinds["static"] + kinds["dynamic"]
     small = {k: case.get(k) for k in ("kind", "model", "states", "must_raise", "finding", "floaty", "source", "prev",
-                                       "compartments") if k != "compartments" or case.get(k)}
+                                       "compartments", "options") if k not in ("compartments", "options") or case.get(k)}
     r_exp = "error" if "err" in R["export"] else "ok"
     m_exp = None if M is None else ("error" if "err" in M["export"] else "ok")
     if M is not None and bool(M["unsupported"]) != bool(case["must_raise"]):
@@ -1223,7 +1248,7 @@ def shrink(ctx, viol, budget: int = 40):
                 break
             spent += 1
             try:
-                c2 = prepare({k: cand.get(k) for k in ("kind", "model", "states", "must_raise", "finding", "floaty", "prev", "compartments")})
+                c2 = prepare({k: cand.get(k) for k in ("kind", "model", "states", "must_raise", "finding", "floaty", "prev", "compartments", "options")})
                 (R, M), = evaluate(ctx, [c2])
                 probe = Ctx(ctx.prop, ctx.tier, ctx.seed)
                 probe.known, probe.fixed = ctx.known, ctx.fixed
@@ -1252,7 +1277,7 @@ def prepare(case):
 def evaluate(ctx, cases):
     reqs = [{"op": "c08", "model": c["wire"], "states": c["states"]} for c in cases]
     Ms = driver.call_batch(reqs) if ctx.driver_ok else [None] * len(cases)
-    jobs = [({k: c.get(k) for k in ("kind", "model", "states", "must_raise", "source", "prev", "prev_source", "compartments")},
+    jobs = [({k: c.get(k) for k in ("kind", "model", "states", "must_raise", "source", "prev", "prev_source", "compartments", "options")},
              dict(m["names"]) if m is not None else {}) for c, m in zip(cases, Ms)]
     Rs = pool().map(real_worker, jobs, chunksize=4)
     return list(zip(Rs, Ms))
@@ -1268,7 +1293,9 @@ def setup(ctx):
         "fractional and computed coefficients of either sign) whose functions are random typed single-expression "
         "rate laws over + - * / // ** unary minus, conditional expressions, (chained) comparisons, not, abs/max/min/"
         "ceil/power/remainder and, in the float stratum, division and transcendental functions; strata: exact, float, "
-        "names needing escaping, every unsupported construct, species-reference clash, booleans as numbers; "
+        "names needing escaping, every unsupported construct (keyword arguments and bodies without return included), "
+        "species-reference clash (also with components called <species>ref), booleans as numbers, permuted argument "
+        "names, statements after the first return, options of write; "
         "3 states each; distinct = distinct (model, states); non-trivial = export and import succeeded"
     )
     ctx.assumptions += [
@@ -1276,8 +1303,8 @@ def setup(ctx):
         "(pysbml's identifier mapping is modelled as nameToPy)",
         "numbers are compared exactly where double arithmetic is exact and to 1e-9 relative otherwise "
         "(sympy reorders expressions on import)",
-        "keyword arguments, statements other than return, modifiers, units and non-default compartments are outside "
-        "the model",
+        "modifiers, units, the model name and compartments other than the default one are outside the Lean model "
+        "(stratum `compartment` is oracle-only; known finding F-C08-14)",
     ]
     ctx.trusted_base += ["translate/c08.py renders tables and structural choices of _export.py faithfully (refuses otherwise)"]
 
@@ -1323,7 +1350,7 @@ def run(ctx):
 
 def replay(ctx, rp):
     case = rp["case"]
-    case = prepare({k: case.get(k) for k in ("kind", "model", "states", "must_raise", "finding", "floaty", "prev", "compartments")})
+    case = prepare({k: case.get(k) for k in ("kind", "model", "states", "must_raise", "finding", "floaty", "prev", "compartments", "options")})
     (R, M), = evaluate(ctx, [case])
     print(case["source"])
     print("R =", json.dumps(R, indent=1)[:4000])
